@@ -93,6 +93,7 @@ type Event struct {
 	Values  Item            `json:"values"`
 	Rvf     bool            `json:"rvf"`
 	Retold  bool            `json:"retold"`
+	RetVals string          `json:"retvals"`
 	Kind    string          `json:"kind"`
 	Kc      Ast             `json:"kc"`
 	Filter  OptAst          `json:"filter"`
